@@ -137,6 +137,24 @@ MUTANTS = [
       "        os.remove(self.incominghome)\n",
       "        self._timeout.reset(30 * 60)  # keep the timer away while we clean up\n        os.remove(self.incominghome)\n",
       "C28.5"),
+    # ---- C28.6 directory clean-up before the release
+    M("abort-rmdir-guard-inverted", IMM,                      # sweep survivor
+      "        if not os.listdir(parentdir):\n            os.rmdir(parentdir)\n",
+      "        if os.listdir(parentdir):\n            os.rmdir(parentdir)\n", "C28.6"),
+    M("abort-rmdir-unguarded", IMM,
+      "        if not os.listdir(parentdir):\n            os.rmdir(parentdir)\n",
+      "        os.rmdir(parentdir)\n", "C28.6"),
+    M("abort-rmdir-guard-tests-other-dir", IMM,
+      "        if not os.listdir(parentdir):\n            os.rmdir(parentdir)\n",
+      "        if not os.listdir(os.path.dirname(parentdir)):\n            os.rmdir(parentdir)\n", "C28.6"),
+    M("close-rmdir-catches-only-missing-dir", IMM,
+      "        except EnvironmentError:\n            # ignore the \"can't rmdir because the directory is not empty\"\n",
+      "        except FileNotFoundError:\n            # ignore the \"can't rmdir because the directory is not empty\"\n",
+      "C28.6"),
+    M("abort-rmdir-via-helper", IMM, _ABORT_HEAD,
+      "    def _remove_incoming_dir(self, parentdir):\n        os.rmdir(parentdir)\n\n" + _ABORT_HEAD,
+      "C28.6", edits=[(IMM, "        if not os.listdir(parentdir):\n            os.rmdir(parentdir)\n",
+                       "        self._remove_incoming_dir(parentdir)\n")]),
     # ---- benign
     M("benign-guarded-cancel-before-release", IMM, _ABORT_TAIL,
       "        if self._timeout.active():\n"
@@ -203,6 +221,26 @@ MUTANTS = [
     M("benign-avail-unclamped-temp", FU,
       "    avail = max(free_for_nonroot - reserved_space, 0)",
       "    unreserved = free_for_nonroot - reserved_space\n    avail = max(0, unreserved)", None),
+    M("benign-rmdir-guard-len-zero", IMM,
+      "        if not os.listdir(parentdir):\n            os.rmdir(parentdir)\n",
+      "        if len(os.listdir(parentdir)) == 0:\n            os.rmdir(parentdir)\n", None),
+    M("benign-rmdir-guard-hoisted", IMM,
+      "        if not os.listdir(parentdir):\n            os.rmdir(parentdir)\n",
+      "        leftovers = os.listdir(parentdir)\n        if leftovers:\n            pass\n        else:\n            os.rmdir(parentdir)\n", None),
+    M("benign-rmdir-caught-instead-of-guarded", IMM,
+      "        if not os.listdir(parentdir):\n            os.rmdir(parentdir)\n",
+      "        try:\n            os.rmdir(parentdir)\n        except OSError:\n            pass  # other shares are still there\n", None),
+    M("benign-rmdir-after-release", IMM,
+      "        if not os.listdir(parentdir):\n            os.rmdir(parentdir)\n        self._sharefile = None\n",
+      "        self._sharefile = None\n", None,
+      edits=[(IMM, "        self.ss.bucket_writer_closed(self, 0)\n",
+              "        self.ss.bucket_writer_closed(self, 0)\n        if not os.listdir(parentdir):\n            os.rmdir(parentdir)\n")]),
+    M("benign-rmdir-guarded-via-helper", IMM, _ABORT_HEAD,
+      "    def _remove_incoming_dir(self, parentdir):\n        os.rmdir(parentdir)\n\n" + _ABORT_HEAD,
+      None, edits=[(IMM, "        if not os.listdir(parentdir):\n            os.rmdir(parentdir)\n",
+                    "        if not os.listdir(parentdir):\n            self._remove_incoming_dir(parentdir)\n")]),
+    M("benign-no-dir-cleanup-in-abort", IMM,
+      "        if not os.listdir(parentdir):\n            os.rmdir(parentdir)\n", "", None),
     # ---- vanished anchor
     M("vanish-timeout-callback-no-longer-aborts", IMM,
       "                facility=\"tahoe.storage\", level=log.UNUSUAL)\n        self.abort()\n",
